@@ -2,6 +2,8 @@ import PoolProofs.C15LemmasInst
 import PoolProofs.C15LemmasStr
 import PoolProofs.C15LemmasB58
 import PoolProofs.C10
+import PoolModel.Generated.C19State
+import PoolProofs.C15LemmasStore
 /-! # C15 — sidecar ticket encodings round-trip and reject damaged strings
 
 Theorems about the model of sidecar/tlv.go and sidecar/codec.go (`Pool.Dec`).  SHA-256 is an arbitrary
@@ -68,6 +70,18 @@ theorem C15_record_tables_match_source :
     Pool.Gen.C15.deserializeOrderKinds = ["prim", "static:64:ESig:DSig"] ∧
     Pool.Gen.C15.deserializeExecutionKinds = ["prim"] ∧
     Pool.Gen.C15.checksumLen = 4 ∧ prefixBytes.length = 7 ∧ encVersion = [0] := by decide
+
+/-- (regenerated fact) The model treats `EncodeToString`, `SerializeTicket`, `DecodeString`,
+`DeserializeTicket` as functions of their argument.  In the source, the intra-package call graph of these
+four functions (incl. the encoders / decoders passed as values) mentions exactly two package-level
+variables – the constants `encodingVersion` and `ZeroSignature` – and writes none: no pooled buffer, cache
+or other shared mutable state that would make the result depend on other calls (sequential or concurrent). -/
+theorem C15_codec_touches_no_mutable_state :
+    Pool.Gen.C19.sidecarCodecVars = ["ZeroSignature : [64]byte", "encodingVersion : []byte"] ∧
+    Pool.Gen.C19.parserStateWrites = [] ∧
+    (∀ f ∈ ["EncodeToString", "SerializeTicket", "DecodeString", "DeserializeTicket", "serializeOffer",
+             "serializeRecipient", "serializeOrder", "serializeExecution", "encodeBytes", "ESig", "EBytes8"],
+        f ∈ Pool.Gen.C19.sidecarCodecCallGraph) := by decide
 
 /-! ## string form -/
 
@@ -336,6 +350,62 @@ theorem C15_embedded_in_bid_roundtrip (t : Ticket) (h : t.wf)
     -- the blob is canonical: it decodes to `t`, and `t` serialises to the blob again
     simp [Pool.C10.ticketCanonical, Pool.C10.readTicket, hdes, hser]
   exact Pool.C10.order_roundtrip _ hwf
+
+/-! ## the ticket store (clientdb/sidecar.go)
+
+`AddSidecar` / `UpdateSidecar` write `SerializeTicket(ticket)` under `id ‖ offer key`; `Sidecar`,
+`SidecarsByID`, `Sidecars` read with `DeserializeTicket`. -/
+
+/-- **Read after write**: whatever was stored under the key before – a ticket with more parts, fewer parts,
+another state – after a successful `UpdateSidecar t` (or `AddSidecar t`) of a well-formed ticket,
+`Sidecar(t.ID, t.Offer.SignPubKey)` returns exactly `t`; every other key is untouched. -/
+theorem C15_store_read_after_write (cfg : Cfg) (hm : 1000 ≤ cfg.maxAlloc) (b b' : SBucket) (t : Ticket) (h : t.wf)
+    (k : Bytes) (hk : t.offer.signPubKey = some k)
+    (hw : updateSidecar b t = .ok b' ∨ addSidecar b t = .ok b') :
+    sidecarGet cfg b' t.id (some k) = .ok t ∧ ∀ key', key' ≠ t.id ++ k → b'.get key' = b.get key' := by
+  obtain ⟨hser, hdes⟩ := ticket_roundtrip cfg hm t h
+  have hb' : b' = b.put (t.id ++ k) (encAligned (ticketRecs cfg) (ticketVals t)) := by
+    rcases hw with hw | hw
+    · unfold updateSidecar at hw
+      rw [hk] at hw
+      simp only [getSidecarKey] at hw
+      split at hw
+      · split at hw
+        · cases hw
+        · unfold storeSidecar at hw; rw [hser] at hw; injection hw with hw; exact hw.symm
+      · cases hw
+    · unfold addSidecar at hw
+      rw [hk] at hw
+      simp only [getSidecarKey] at hw
+      split at hw
+      · split at hw
+        · cases hw
+        · unfold storeSidecar at hw; rw [hser] at hw; injection hw with hw; exact hw.symm
+      · unfold storeSidecar at hw; rw [hser] at hw; injection hw with hw; exact hw.symm
+  subst hb'
+  constructor
+  · simp only [sidecarGet, getSidecarKey, readSidecar, SBucket.get_put_same, hdes]
+  · intro key' hne; exact SBucket.get_put_other _ _ _ _ hne
+
+/-- an update needs a stored ticket; an add refuses an occupied key -/
+theorem C15_store_update_needs_entry (b : SBucket) (t : Ticket) (k : Bytes) (hk : t.offer.signPubKey = some k)
+    (hn : b.get (t.id ++ k) = none) : ∃ r, updateSidecar b t = r ∧ (∀ b', r ≠ .ok b') := by
+  refine ⟨_, rfl, ?_⟩
+  intro b' h
+  unfold updateSidecar at h
+  rw [hk] at h
+  simp only [getSidecarKey, hn] at h
+  cases h
+
+/-- non-vacuity: updating a stored entry with the fully populated example ticket succeeds -/
+example : updateSidecar [(exampleTicket.id ++ gKey, [1])] exampleTicket =
+    .ok [(exampleTicket.id ++ gKey,
+          encAligned (ticketRecs { p2pTop := true, p2pSub := true, maxAlloc := 65535 }) (ticketVals exampleTicket))] := by
+  have hser := (ticket_roundtrip { p2pTop := true, p2pSub := true, maxAlloc := 65535 } (by decide)
+    exampleTicket exampleTicket_wf).1
+  unfold updateSidecar storeSidecar
+  rw [hser]
+  rfl
 
 /-! ## the property in full -/
 
